@@ -5,7 +5,7 @@ import RV.Base.Proto
   C09 driver.  Strings cross the protocol as comma-separated code points (`-` = empty).
 
     lex <dt> <cps> [d|t|o]               (normalize default / explicit True / rdflib.NORMALIZE_LITERALS off)
-                                         → lex|ill₀|val₀|valid₁|back₁|n1same|idem|ill₁|val₁|eq(l₁, reread l₁)[|spell…]
+                                         → lex|ill₀|val₀|valid₁|back₁|n1same|idem|ill₁|val₁|eq(l₁, reread l₁)|xsd-value (Spec, date/time/dateTime)[|spell…]
         l₀ = Literal(s, dt, normalize=False), l₁ = Literal(s, dt), n₁ = l₀.normalize(), n₂ = n₁.normalize()
     py <pyspec>                          → py|dt|valid|back[|spell]
         l = Literal(v); valid = lexical form in the XSD lexical space (Lean recogniser); back = value of re-reading it
@@ -156,6 +156,25 @@ def litSpec? : List String → Option (LitR × List String)
 structure St where
   spell : Bool
 
+/-- the value XSD assigns, computed from the specification (`Spec.dateVal`, `timeVal`, `dateTimeVal` — not from the
+    model's parsers), for forms of xsd:date / time / dateTime that CPython's types hold exactly; `-` otherwise -/
+def specValue (d : Dt) (s : Str) : String :=
+  let tzS := fun (z : Option Int) => showOptInt (z.map (· * 60000000))
+  match d with
+  | .date =>
+    let v := (Spec.dateVal s).1
+    if Spec.dateLex s && decide (1 ≤ v.year) && decide (v.year ≤ 9999) then s!"date:{v.year}:{v.month}:{v.day}" else "-"
+  | .time =>
+    let t := Spec.timeVal s
+    if Spec.timeLex s && t.hour != 24 && decide (t.frac.length ≤ 6) then
+      s!"time:{t.hour}:{t.minute}:{t.second}:{Spec.fracMicros t.frac}:{tzS t.tz}" else "-"
+  | .dateTime =>
+    let v := (Spec.dateTimeVal s).1
+    let t := (Spec.dateTimeVal s).2
+    if Spec.dateTimeLex s && decide (1 ≤ v.year) && decide (v.year ≤ 9999) && t.hour != 24 && decide (t.frac.length ≤ 6) then
+      s!"datetime:{v.year}:{v.month}:{v.day}:{t.hour}:{t.minute}:{t.second}:{Spec.fracMicros t.frac}:{tzS t.tz}" else "-"
+  | _ => "-"
+
 def lexLine (st : St) (d : Dt) (s : Str) (nz : Bool := true) : String :=
   if !inFragment (some d) s then "unmodelled"
   else
@@ -171,7 +190,7 @@ def lexLine (st : St) (d : Dt) (s : Str) (nz : Bool := true) : String :=
           let eqB := match mkLex (some d) l1.lex false with
             | some r => (match l1.eq r with | some true => "1" | some false => "0" | none => "TypeError")
             | none => "raise"
-          let base := s!"lex|{showIll l0.ill}|{canon l0.value}|{b01 (Spec.validLex d l1.lex)}|{backS}|{b01 (n1.lex == l1.lex)}|{b01 (n2.lex == n1.lex)}|{showIll l1.ill}|{canon l1.value}|{eqB}"
+          let base := s!"lex|{showIll l0.ill}|{canon l0.value}|{b01 (Spec.validLex d l1.lex)}|{backS}|{b01 (n1.lex == l1.lex)}|{b01 (n2.lex == n1.lex)}|{showIll l1.ill}|{canon l1.value}|{eqB}|{specValue d s}"
           if st.spell then s!"{base}|{showCps l0.lex}|{showCps l1.lex}|{showCps n1.lex}|{showCps n2.lex}" else base
         | none => "lex|raise"
       | none => "lex|raise"
@@ -250,7 +269,7 @@ def flexLine (st : St) (s : Str) (nz : Bool) : String :=
         | some x, some y => b01 (x.pyEq y)
         | none, none => "1"
         | _, _ => "0"
-      let base := s!"lex|{illS}|{canonF v}|{b01 (Spec.doubleLex l1)}|{canonF back}|{b01 (n1 == l1)}|{b01 (n2 == some n1)}|{illS}|{canonF v}|{eqB}"
+      let base := s!"lex|{illS}|{canonF v}|{b01 (Spec.doubleLex l1)}|{canonF back}|{b01 (n1 == l1)}|{b01 (n2 == some n1)}|{illS}|{canonF v}|{eqB}|-"
       if st.spell then s!"{base}|{showCps s}|{showCps l1}|{showCps n1}|{showCps n1}" else base
 
 def fspec? : List String → Option FVal
